@@ -74,6 +74,9 @@ def run(ck):
     retention_victim_is_oldest(ck, S, "C09-O2")
     tpl_next = name_pattern(ck, S, fi, "C09-O2", date_is_class=False)
     name_scheme(ck, S, "C09-O3")
+    ck.rule("C09-O6", "the dates that decide the daily rotation and name rotated files come from one time base")
+    from rules.rfs import time_base_agreement
+    time_base_agreement(ck, S, "C09-O6")
     # ---- O4
     ren = [n for n in rt.calls() if destructive_kind(n) == "rename"]
     ok = len(ren) == 1 and ren[0].get("callee") == "QFile::rename" and ren[0].get("static") and len(ren[0].get("args", [])) == 2
